@@ -78,9 +78,30 @@ def duplicate_class_names(src):
   return False
 
 
+def literal_branch_ifexp_meets_int_semantics(src):
+  """source contains an if-expression with an integer-literal (or closure constant) branch and a signal branch that is the
+  operand of unary ~ / - or of a binary operator whose other operand is again an integer constant: when the literal branch
+  is selected python computes on plain ints there, the emitted code on sized vectors (F-T6 / F-W6 shape)"""
+  try:
+    tree = ast.parse(src)
+  except SyntaxError:
+    return False
+  def is_const(n):
+    return (isinstance(n, ast.Constant) and isinstance(n.value, int)) or (isinstance(n, ast.Name) and n.id != "s")
+  def int_branch_ifexp(n):
+    if not isinstance(n, ast.IfExp): return False
+    kinds = [is_const(b) or int_branch_ifexp(b) for b in (n.body, n.orelse)]
+    return any(kinds) and not all(is_const(b) for b in (n.body, n.orelse))
+  for n in ast.walk(tree):
+    if isinstance(n, ast.UnaryOp) and isinstance(n.op, (ast.Invert, ast.USub)) and int_branch_ifexp(n.operand): return True
+    if isinstance(n, ast.BinOp) and ((is_const(n.left) and int_branch_ifexp(n.right)) or (is_const(n.right) and int_branch_ifexp(n.left))): return True
+  return False
+
+
 def mech(kind, w, design=None):
   src = w.get("source", "")
   if kind == "output-differs-from-pymtl-simulation":
+    if literal_branch_ifexp_meets_int_semantics(src): return "ifexp-with-literal-branch-evaluates-to-python-int-in-simulation"
     if const_only_nonring_subexpr(src): return "const-subexpression-narrowed-before-nonring-operator"
     if duplicate_class_names(src): return "same-class-name-and-params-share-one-module"
   return None
@@ -96,6 +117,15 @@ class Top(Component):
     def up():
       s.out @= s.in_ + (N >> 1)
       s.o2 @= s.in_ < (N % 3)
+""", "Top"),
+ "F-T6": ("""from pymtl3 import *
+class Top(Component):
+  def construct(s):
+    K = 1
+    s.a = InPort(4); s.c = InPort(1); s.o = OutPort(4)
+    @update
+    def up():
+      s.o @= (K + (s.a if s.c else 15)) >> 1
 """, "Top"),
  "F-T3": ("""from pymtl3 import *
 def mk(k):
